@@ -70,9 +70,9 @@ type Prog struct {
 	InlineFailed string
 	// InlineRejected: expansions that were dropped because the package did not type-check with them
 	InlineRejected []string
-	condAlias   map[string]string
-	canonT      map[*types.Named]string
-	canonF       map[*types.Var]string
+	condAlias      map[string]string
+	canonT         map[*types.Named]string
+	canonF         map[*types.Var]string
 }
 
 func loadEnv(cfg Config) []string {
